@@ -13,6 +13,7 @@ META = {
 }
 META["technique"] += "; " + 're-check rule for weak blockers'
 META["level"] += " Added after the second round of independent changes: " + '(R5) a blocker that hit a package is passed over only after state.match_atom(blocker) was asked again and found nothing.'
+META["level"] += " R5 also: un-slotting removes exactly the given package object (identity filter, shared with C17.R6)."
 META["technique"] += "; " + 'generic pack G on the anchored files (optional-flag shift, closures outliving a loop iteration, single-pass iterables consumed twice, %-templates built from data, in-place writes to class-level / memoised objects, generators mutating what they yielded, memo keys that are projections)'
 PL = "pkgcore.resolver.plan"
 CP = "pkgcore.resolver.choice_point"
